@@ -33,7 +33,7 @@ Inductive phdr :=
 Inductive pn :=
 | PDecl (name ctype expr : text) (glob : bool)      (* VarDecl(name, c_type, expr, global_scope) *)
 | PAssign (name expr : text)                        (* VarAssign(name, expr) *)
-| POther (cl : list text)                           (* any other simple node: the C++ lines it is emitted as *)
+| PSimple (cl : list text)                           (* any other simple node: the C++ lines it is emitted as *)
 | PCtl (h : phdr) (b : list pn).                    (* one branch / loop / try body / handler with its nodes *)
 
 (* ---------------------------------------------------------------- _rewrite_nodes *)
@@ -134,7 +134,7 @@ Fixpoint items_n (pre : list phdr) (n : pn) {struct n} : list (list phdr * pitem
   match n with
   | PDecl name _ e _ => [(pre, ItAssign name e)]
   | PAssign name e => [(pre, ItAssign name e)]
-  | POther cl => [(pre, ItOther cl)]
+  | PSimple cl => [(pre, ItOther cl)]
   | PCtl h b => flat_map (items_n (pre ++ [h])) b
   end.
 Definition items (pre : list phdr) (ns : list pn) : list (list phdr * pitem) := flat_map (items_n pre) ns.
